@@ -193,9 +193,22 @@ pub mod verif {
         strains_vec::StrainsVec,
     };
 
-    pub use crate::model::control_point::{
-        difficulty_point_at, effect_point_at, timing_point_at,
-    };
+    use crate::model::control_point::{DifficultyPoint, EffectPoint, TimingPoint};
+
+    /// The timing point active at `time`.
+    pub fn timing_point_at(points: &[TimingPoint], time: f64) -> Option<&TimingPoint> {
+        crate::model::control_point::timing_point_at(points, time)
+    }
+
+    /// The difficulty point active at `time`.
+    pub fn difficulty_point_at(points: &[DifficultyPoint], time: f64) -> Option<&DifficultyPoint> {
+        crate::model::control_point::difficulty_point_at(points, time)
+    }
+
+    /// The effect point active at `time`.
+    pub fn effect_point_at(points: &[EffectPoint], time: f64) -> Option<&EffectPoint> {
+        crate::model::control_point::effect_point_at(points, time)
+    }
 
     /// Per-thread event sink for trace validation. Nothing is recorded
     /// unless [`start`](trace::start) was called on the current thread.
